@@ -37,19 +37,22 @@ def classify(r):
         import re as _re
         m = _re.search(r"sop/(\w+)\.\(\*?(\w+)[^)]*\)\.(\w+)", note)
         site = "%s.%s.%s" % m.groups() if m else ("hang" if "hung" in note else "?")
-        return ("%s|process-panic|%s|last-commit-by=%s" % (mode, site, rel),
+        return ("%s|process-panic|%s|last-commit-by=%s|placement=%s|prev=?" % (mode, site, rel, (r["header"].get("stores") or [{}])[0].get("Placement", "?")),
                 "a process died while executing a transaction (successful commits so far by %s): %s" % (lastw, note[:300]))
     if ev in ("Observe", "Op") and (ev == "Observe" or raw.get("op") in txnlib.READ_OPS):
         sym = "stale-read"
     elif ev == "CommitEnd" and not raw.get("ok"):
         note = raw.get("note", "").lower()
-        sym = ("commit-failed-on-stale-view" if ("newer version" in note or "failed to merge" in note) else
+        sym = ("commit-failed-on-stale-view" if ("newer version" in note or "failed to merge" in note or "failed to find item" in note) else
                "commit-failed:retry-limit" if "retry limit" in note else
                "commit-failed:timeout" if ("timed out" in note or "deadline" in note) else
                "commit-failed:item-lock-conflict" if "detected conflict" in note else "commit-failed:other")
     else:
         sym = "other:%s:%s" % (ev, raw.get("op", ""))
-    return ("%s|%s|last-commit-by=%s" % (mode, sym, rel),
+    store = (r["header"].get("stores") or [{}])[0]
+    ends = [e for e in r["raw"][:r["index"]] if e.get("ev") in ("CommitEnd", "Rollback")]
+    prev = "rollback" if ends and ends[-1].get("ev") == "Rollback" else "commit"
+    return ("%s|%s|last-commit-by=%s|placement=%s|prev=%s" % (mode, sym, rel, store.get("Placement", "?"), prev),
             "process %s: %s (successful commits so far by %s): %s" % (who, sym, lastw, json.dumps(raw)[:260]))
 
 
